@@ -67,11 +67,11 @@ Proof.
   - split; intro H; [apply IH; reflexivity|reflexivity].
 Qed.
 
-Lemma e_put_rec k x l :
-  e_put k x l = match r_get k l with Some _ => r_upd k (fun _ => x) l | None => l ++ [(k, x)] end.
+Lemma e_put0_rec k x l :
+  e_put0 k x l = match r_get k l with Some _ => r_upd k (fun _ => x) l | None => l ++ [(k, x)] end.
 Proof.
   induction l as [|[k' v] l IH]; [reflexivity|].
-  unfold e_put in *. rewrite pos_cons. simpl r_get. simpl r_upd.
+  unfold e_put0 in *. rewrite pos_cons. simpl r_get. simpl r_upd.
   destruct (bytes_eqb k' k) eqn:E; [reflexivity|].
   destruct (pos k l) as [i|] eqn:P; simpl.
   - change (((k', v) :: firstn i l ++ map (fun kv => (fst kv, x)) (firstn 1 (skipn i l)) ++ skipn (S i) l)
@@ -81,6 +81,20 @@ Proof.
             = match r_get k l with Some _ => (k', v) :: r_upd k (fun _ => x) l | None => (k', v) :: l ++ [(k, x)] end).
     rewrite IH. destruct (r_get k l); reflexivity.
 Qed.
+
+Definition r_forget (k : bytes) (l : entries) : entries :=
+  match r_get k l with Some PNone => r_del k l | _ => l end.
+Lemma e_forget_rec k l : e_forget k l = r_forget k l.
+Proof. unfold e_forget, r_forget. rewrite e_get_rec, e_del_rec. reflexivity. Qed.
+Lemma e_put_rec k x l :
+  e_put k x l = match r_get k (r_forget k l) with
+                | Some _ => r_upd k (fun _ => x) (r_forget k l)
+                | None => r_forget k l ++ [(k, x)]
+                end.
+Proof. unfold e_put. rewrite e_put0_rec, e_forget_rec. reflexivity. Qed.
+(* no placeholder under k: nothing to forget *)
+Lemma r_forget_id k l : r_get k l <> Some PNone -> r_forget k l = l.
+Proof. unfold r_forget. destruct (r_get k l) as [[| | |]|]; congruence. Qed.
 
 Lemma r_upd_id k l : r_upd k (fun x => x) l = l.
 Proof.
@@ -173,11 +187,27 @@ Proof.
     injection H as <-. simpl. rewrite (IH m1 eq_refl). reflexivity.
 Qed.
 
+Lemma abs_item_none i : abs_item i = PNone <-> i = INone.
+Proof.
+  destruct i as [|[| |]|[? ? ? ? ? ?]|]; simpl; split; intro H; try reflexivity; discriminate.
+Qed.
+
+Lemma absl_purge m k : absl (kv_purge m k) = r_forget k (absl m).
+Proof.
+  unfold kv_purge, r_forget. rewrite absl_get.
+  destruct (kv_get m k) as [[k' i]|]; [|reflexivity].
+  destruct i as [|v|t|ts sp]; simpl.
+  - apply absl_remove.
+  - destruct v; reflexivity.
+  - destruct t; reflexivity.
+  - reflexivity.
+Qed.
+
 Lemma absl_items_insert m k it :
   absl (items_insert m k it) = e_put k (abs_item it) (absl m).
 Proof.
-  unfold items_insert. rewrite e_put_rec, absl_get.
-  destruct (kv_get m k) as [[k' i]|].
+  unfold items_insert. rewrite e_put_rec, <- absl_purge, absl_get.
+  destruct (kv_get (kv_purge m k) k) as [[k' i]|].
   - apply absl_set_fmt.
   - apply absl_push.
 Qed.
@@ -185,8 +215,8 @@ Qed.
 Lemma absl_kv_insert m k it :
   absl (kv_insert m k it) = e_put (k_key k) (abs_item it) (absl m).
 Proof.
-  unfold kv_insert. rewrite e_put_rec, absl_get.
-  destruct (kv_get m (k_key k)) as [[k' i]|].
+  unfold kv_insert. rewrite e_put_rec, <- absl_purge, absl_get.
+  destruct (kv_get (kv_purge m (k_key k)) (k_key k)) as [[k' i]|].
   - apply absl_set.
   - apply absl_push.
 Qed.
